@@ -137,7 +137,7 @@ func (sc *L1Scenario) c16BigA() {
 	sc.Advance(2 * sec)
 }
 
-// big case B: more than 100 claim records on one bridge (one tree of 101..102 withdrawals, all paid)
+// big case B: more than 100 claim records on one bridge (101..104 outputs with one paid withdrawal each)
 func (sc *L1Scenario) c16BigB() {
 	e, c := sc.Env, sc.Case
 	c.Do(sc.Create(e.User(7).Str, sc.NewConfig(1, 2, sec)))
@@ -147,15 +147,22 @@ func (sc *L1Scenario) c16BigB() {
 		sc.reg(sender)
 		c.Do(sc.op(L1Op{Kind: "deposit", Sender: sender, Bridge: 1, To: "l2recipient", Denom: d, Amt: big.NewInt(6000)}))
 	}
-	pt := sc.MakeTree(1, 101+sc.R.Intn(2))
-	pt.Idx = 1
+	// 101..104 outputs, each carrying a one-leaf tree (cheap proofs: the model evaluates every
+	// claim's hashes under vm_compute), all paid after the finalization period
 	prop, _, _, _ := sc.Config(1)
 	sc.reg(prop)
-	if c.Do(sc.op(L1Op{Kind: "propose", Sender: prop, Bridge: 1, Idx: 1, L2: 9, Root: pt.Root})).OK {
-		sc.Trees = append(sc.Trees, pt)
+	n := 101 + sc.R.Intn(4)
+	var pts []*ProposedTree
+	for i := 1; i <= n; i++ {
+		pt := sc.MakeTree(1, 1)
+		pt.Idx = uint64(i)
+		if c.Do(sc.op(L1Op{Kind: "propose", Sender: prop, Bridge: 1, Idx: uint64(i), L2: uint64(3 * i), Root: pt.Root})).OK {
+			sc.Trees = append(sc.Trees, pt)
+			pts = append(pts, pt)
+		}
 	}
 	sc.Advance(3 * sec)
-	for i := range pt.Tree.Ws {
-		c.Do(sc.Claim(pt, i, e.User(3).Str))
+	for _, pt := range pts {
+		c.Do(sc.Claim(pt, 0, e.User(3).Str))
 	}
 }
